@@ -17,6 +17,9 @@ use compiler::tast::{TastIdent, Ty};
 use indexmap::IndexMap;
 use std::fmt::Write as _;
 
+#[path = "c03arity.rs"]
+pub mod arity;
+
 fn builtins_s(genv: &GlobalTypeEnv) -> S {
     let mut rows = Vec::new();
     for (name, sch) in genv.value_env.funcs.iter() {
@@ -221,6 +224,7 @@ pub fn emit(id: &str, src: Option<&str>, st: &Staged, out: &mut String) {
     if let Some(core) = &st.core {
         let c = wtcase("core", dump::core_file(core), c07::enums_s(genv.enums()), c07::structs_s(genv.structs()), genv);
         writeln!(out, "{}\tWT\tcore\t{}", id, c.to_text()).unwrap();
+        arity::emit_counts(id, "core", &dump::core_file(core), genv, genv.enums(), genv.structs(), out);
         let mut bad = Vec::new();
         core.toplevels.iter().for_each(|f| ann_core(&f.body, &mut bad));
         writeln!(out, "{}\tANN\tcore\t{}\t{}", id, bad.len(), bad.join(",")).unwrap();
@@ -234,6 +238,12 @@ pub fn emit(id: &str, src: Option<&str>, st: &Staged, out: &mut String) {
             genv,
         );
         writeln!(out, "{}\tWT\tmono\t{}", id, c.to_text()).unwrap();
+        {
+            let (mut en, mut sn) = (genv.enums().clone(), genv.structs().clone());
+            en.extend(env.mono_enums.clone());
+            sn.extend(env.mono_structs.clone());
+            arity::emit_counts(id, "mono", &dump::mono_file(m), genv, &en, &sn, out);
+        }
         let mut bad = Vec::new();
         m.toplevels.iter().for_each(|f| ann_mono(&f.body, &mut bad));
         writeln!(out, "{}\tANN\tmono\t{}\t{}", id, bad.len(), bad.join(",")).unwrap();
@@ -247,6 +257,11 @@ pub fn emit(id: &str, src: Option<&str>, st: &Staged, out: &mut String) {
             genv,
         );
         writeln!(out, "{}\tWT\tlift\t{}", id, c.to_text()).unwrap();
+        let (mut en, mut sn) = (genv.enums().clone(), genv.structs().clone());
+        en.extend(menv.mono_enums.clone());
+        sn.extend(menv.mono_structs.clone());
+        sn.extend(lenv.lifted_structs.clone());
+        arity::emit_counts(id, "lift", &dump::lift_file(f), genv, &en, &sn, out);
         let mut bad = Vec::new();
         f.toplevels.iter().for_each(|g| ann_lift(&g.body, &mut bad));
         writeln!(out, "{}\tANN\tlift\t{}\t{}", id, bad.len(), bad.join(",")).unwrap();
@@ -259,6 +274,7 @@ pub fn emit(id: &str, src: Option<&str>, st: &Staged, out: &mut String) {
                 genv,
             );
             writeln!(out, "{}\tWT\tanf\t{}", id, c.to_text()).unwrap();
+            arity::emit_counts(id, "anf", &dump::anf_file(af), genv, &en, &sn, out);
         }
     }
     if let Some(core) = &st.core {
@@ -474,6 +490,8 @@ pub fn main(args: &util::Args) {
             out.push_str(&o2);
         }
     }
+    // ---- argument count at every call form (c03arity.rs)
+    arity::run(&dir, args.seed, &args.tier, &mut out, &mut kinds_total);
     writeln!(out, "#KINDS\t{}", kinds_total.iter().map(|(k, v)| format!("{}={}", k, v)).collect::<Vec<_>>().join(" ")).unwrap();
     writeln!(out, "#FEATS\t{}", feats_total.iter().map(|(k, v)| format!("{}={}", k, v)).collect::<Vec<_>>().join(" ")).unwrap();
     let _ = std::fs::remove_dir_all(&dir);
